@@ -41,9 +41,19 @@ class RngSeam:
         self.src = src
 
     # --- replacements -------------------------------------------------------------
+    def _sized(self, size, draw, dtype=float):
+        """A block draw is answered as that many scalar draws, in order (each its own choice point)."""
+        shape = (int(size),) if not isinstance(size, (tuple, list)) else tuple(int(v) for v in size)
+        n = 1
+        for v in shape:
+            n *= v
+        if n > 4096:
+            raise HarnessError("a block of %d random numbers is not enumerated by the seam" % n)
+        return np.array([draw() for _ in range(n)], dtype=dtype).reshape(shape)
+
     def randint(self, low, high=None, size=None, dtype=int):
         if size is not None:
-            raise HarnessError("np.random.randint with size= is not enumerated by the seam")
+            return self._sized(size, lambda: self.randint(low, high), dtype=dtype)
         if high is None:
             low, high = 0, low
         n = int(high) - int(low)
@@ -64,7 +74,9 @@ class RngSeam:
 
     def uniform(self, low=0.0, high=1.0, size=None):
         if size is not None:
-            raise HarnessError("np.random.uniform with size= is not enumerated by the seam")
+            if np.ndim(low) or np.ndim(high):
+                raise HarnessError("np.random.uniform with array bounds is not enumerated by the seam")
+            return self._sized(size, lambda: self.uniform(low, high))
         a = self.src.choose("uniform", len(self.fr))
         f = self.fr[a]
         lo = float(low)
